@@ -985,3 +985,289 @@ def remove_at(prog, path):
         return prog[:ti] + [("do", rec(o[1], rest))] + prog[ti + 1:]
     except Exception:
         return None
+
+
+# --------------------------------------------------------------------------------------------------
+# the check
+
+# finding id -> (model flag that decides class membership on the program, witness file)
+KNOWN_CLASS = {"F4": (M_DRAINLEFT, "F4_witness.cases"), "F5": (M_PREPHELD, "F5_witness.cases"), "F7": (7, "F7_witness.cases")}
+
+# theorems pinned per property (coq/Props/<prop>.v)
+PINS = {
+    "C01": [], "C02": [], "C03": [], "C04": [], "C05": [], "C06": [], "C15": [], "C16": [], "C20": [],
+}
+PROOF_FILES = ["R/Syntax.v", "R/Rt.v", "R/Mon.v"]
+
+QUICK_N = {"C01": 1500, "C02": 3000, "C03": 3000, "C04": 3000, "C05": 3000, "C06": 2500, "C15": 3000, "C16": 2500, "C20": 3000}
+THOROUGH_N = {"C01": 14000, "C02": 30000, "C03": 30000, "C04": 30000, "C05": 30000, "C06": 24000, "C15": 30000, "C16": 24000, "C20": 30000}
+
+# which event kinds make a case "non-trivial" for a property (rule recorded in the evidence)
+NONTRIVIAL = {
+    "C01": ("at least 3 main-queue submissions of which one is re-entrant (made while a closure runs or from a Drop)", lambda ls: _cnt(ls, "sub m") >= 3 and _reentrant(ls)),
+    "C02": ("at least 2 calls to one actor and a lifecycle change (ready / notify) of that actor", lambda ls: _cnt(ls, "target") >= 2 and (_cnt(ls, "ready") + _cnt(ls, "notify")) >= 1),
+    "C03": ("at least one actor with a termination request or owner drop", lambda ls: _cnt(ls, "req") + _cnt(ls, "owndrop") >= 1 and _cnt(ls, "actor") >= 1),
+    "C04": ("at least one owner created and dropped and one notification", lambda ls: _cnt(ls, "owndrop") >= 1 and _cnt(ls, "notify") >= 1),
+    "C05": ("at least one Ret created and invoked", lambda ls: _cnt(ls, "retnew") >= 1 and _cnt(ls, "ret ") >= 1),
+    "C06": ("at least one lazy or idle item and two run calls", lambda ls: _cnt(ls, "sub l") + _cnt(ls, "sub i") >= 1 and _cnt(ls, "runbegin") >= 2),
+    "C15": ("at least two run calls and one observation of now()", lambda ls: _cnt(ls, "runbegin") >= 2 and (_cnt(ls, "run ") + _cnt(ls, "meth") + _cnt(ls, "num 8")) >= 1),
+    "C16": ("at least 5 objects created (closures, values, rets, tokens, fwds)", lambda ls: _cnt(ls, "clo ") + _cnt(ls, "ready") + _cnt(ls, "retnew") + _cnt(ls, "toknew") + _cnt(ls, "fwdnew") >= 5),
+    "C20": ("a logger installed and at least one actor created", lambda ls: _cnt(ls, "setlogger") >= 1 and _cnt(ls, "actor") >= 1),
+}
+
+
+def _cnt(lines, prefix):
+    return sum(1 for l in lines if l.startswith(prefix))
+
+
+def _reentrant(lines):
+    depth = 0
+    for l in lines:
+        if l.startswith(("run ", "meth ", "prep ")):
+            depth += 1
+        elif l.startswith("end "):
+            depth = max(0, depth - 1)
+        elif l.startswith("sub m") and depth > 0:
+            return True
+        elif l.startswith("tokdrop"):
+            return True
+    return False
+
+
+def load_corpus():
+    cases = []
+    if os.path.isdir(CORPUS):
+        for fn in sorted(os.listdir(CORPUS)):
+            if fn.endswith(".cases"):
+                for name, prog in parse_cases(open(os.path.join(CORPUS, fn)).read()):
+                    cases.append((name, prog, fn))
+    return cases
+
+
+def classes_of(r):
+    """Known-finding classes the PROGRAM belongs to (decided by the model on the program)."""
+    fl = model_flags((r["model"] or {}).get("lines", []))
+    return set(fid for fid, (flag, _) in KNOWN_CLASS.items() if flag in fl)
+
+
+def findings_for(prop):
+    res = {}
+    for f in vlib.known_findings():
+        if f.get("status") == "known" and f["id"] in KNOWN_CLASS and prop in f.get("properties", []):
+            res[f["id"]] = f
+    return res
+
+
+def save_replay(prop, name, prog, note):
+    path = vlib.replay_path(prop, name + ".cases")
+    with open(path, "w") as f:
+        f.write("# %s\n" % note.replace("\n", " "))
+        f.write(ser_case(name, prog))
+    return path
+
+
+def check_cases(prop, binary, driver, cases, tag, drop_log=False):
+    """-> (results, summary) where summary has the lists of failing cases by kind."""
+    res = run_both(binary, driver, cases, tag, drop_log=drop_log)
+    known = findings_for(prop)
+    summ = dict(ok=0, ambig=0, diffs=[], monviol=[], known={}, crashes=[], fuel=0, validated=0)
+    for name, _ in cases:
+        r = res[name]
+        v, d = judge(prop, r, drop_log)
+        r["verdict"], r["detail"] = v, d
+        if v == "skip-ambig":
+            summ["ambig"] += 1
+            continue
+        if v == "fuel":
+            summ["fuel"] += 1
+            continue
+        if v == "crash":
+            summ["crashes"].append((name, d))
+            continue
+        if v == "diff":
+            summ["diffs"].append((name, d))
+        else:
+            summ["validated"] += 1
+        # the property's monitor on the REAL trace (whatever the model says)
+        if r["realmon"].get(prop) is False:
+            cls = classes_of(r) & set(known)
+            if cls:
+                for c in cls:
+                    summ["known"].setdefault(c, []).append(name)
+            else:
+                summ["monviol"].append((name, "monitor %s_ok is false on the real trace" % prop))
+        elif v == "ok":
+            summ["ok"] += 1
+    return res, summ
+
+
+def make_fails(prop, binary, driver, kind, drop_log=False):
+    """Predicate used by the shrinker: does the (smaller) program still fail the same way?"""
+    counter = [0]
+
+    def fails(prog):
+        counter[0] += 1
+        name = "shrink%d" % counter[0]
+        res = run_both(binary, driver, [(name, prog)], "shrink-%d" % os.getpid(), nproc=1, drop_log=drop_log)
+        r = res[name]
+        v, _ = judge(prop, r, drop_log)
+        if kind == "diff":
+            return v == "diff"
+        if kind == "mon":
+            return v in ("ok", "diff") and r["realmon"].get(prop) is False and not (classes_of(r) & set(findings_for(prop)))
+        return v == "crash"
+    return fails
+
+
+def run(prop, tier, seed):
+    ev = vlib.Evidence(prop, tier, seed, level="proof")
+    t0 = time.time()
+    problems = []          # things that break the tie / the proof (protocol: search, then no-input violation)
+    ok_tr, tr_problems = vlib.translate()
+    if not ok_tr:
+        problems += ["translator: " + p for p in tr_problems]
+    # --- proofs
+    audit = vlib.props_audit(prop, PINS.get(prop, []))
+    if not audit["ok"]:
+        problems += ["proof: " + p for p in audit["problems"]]
+        failed = vlib.coq_failed_files(audit["log"])
+        if failed:
+            problems.append("coq files failing: " + ", ".join(failed))
+    # --- model + harness
+    okm, driver, mlog = build_model()
+    okh, binary, hlog = build_harness()
+    if not okh:
+        problems.append("harness build failed: " + hlog[-1500:])
+    if not okm:
+        problems.append("model build failed: " + mlog[-1500:])
+    violations = []
+    summ_all = dict(ok=0, ambig=0, validated=0, fuel=0)
+    known_seen = {}
+    dist = {}
+    samples = []
+    nontrivial = set()
+    n_eval = 0
+    if okm and okh:
+        rule, pred = NONTRIVIAL[prop]
+        # corpus first (known-finding witnesses and regression cases)
+        corpus = load_corpus()
+        ccases = [(n, p) for n, p, _ in corpus]
+        res, summ = check_cases(prop, binary, driver, ccases, "corpus-" + prop)
+        batches = [("corpus", ccases, res, summ)]
+        n = (THOROUGH_N if tier == "thorough" else QUICK_N)[prop]
+        if problems:
+            n = max(n, THOROUGH_N[prop] // 2)       # failing-input search: escalate the budget
+        per = 1500
+        done = 0
+        bi = 0
+        while done < n:
+            k = min(per, n - done)
+            cases, stats = gen_cases(prop, k, seed * 1000 + bi)
+            for kk, vv in stats.items():
+                dist["gen." + kk] = dist.get("gen." + kk, 0) + vv
+            res, summ = check_cases(prop, binary, driver, cases, "gen-%s-%d" % (prop, bi))
+            batches.append(("gen%d" % bi, cases, res, summ))
+            done += k
+            bi += 1
+            if summ["diffs"] or summ["monviol"] or summ["crashes"]:
+                break                                  # enough to report; shrink below
+        for bname, cases, res, summ in batches:
+            n_eval += len(cases)
+            for k_ in ("ok", "ambig", "validated", "fuel"):
+                summ_all[k_] += summ[k_]
+            for fid, names in summ["known"].items():
+                known_seen.setdefault(fid, []).extend(names)
+            for name, _ in cases:
+                r = res[name]
+                if r.get("real") and r["verdict"] in ("ok", "diff"):
+                    ls = r["real"]["lines"]
+                    if pred(ls):
+                        nontrivial.add(hash(tuple(canon(ls))))
+                    for l in ls:
+                        kk = l.split(" ", 1)[0]
+                        dist["ev." + kk] = dist.get("ev." + kk, 0) + 1
+                    if len(samples) < 6 and pred(ls):
+                        samples.append(dict(case=name, events=len(ls), program=ser_case(name, r["prog"])[:600]))
+            for kind, lst in (("mon", summ["monviol"]), ("diff", summ["diffs"]), ("crash", summ["crashes"])):
+                for name, detail in lst[:2]:
+                    prog = res[name]["prog"]
+                    small = shrink(prog, make_fails(prop, binary, driver, kind), max_iter=250 if tier == "quick" else 600)
+                    path = save_replay(prop, "%s_%s" % (kind, name), small, "%s: %s" % (kind, detail))
+                    violations.append((kind, name, path, detail))
+    # --- verdict
+    known = findings_for(prop)
+    for fid, f in sorted(known.items()):
+        names = known_seen.get(fid, [])
+        wit = [x for x in names if x.startswith(fid + "_")]
+        if wit:
+            vlib.known_finding(prop, "class=%s %s (witness %s reproduces: %s_ok is false on the real trace; %d generated/corpus cases in the class)"
+                               % (f.get("class"), f["record"].split(" ", 3)[-1][:160], ",".join(wit), prop, len(names)))
+    rc = 0
+    mon_v = [v for v in violations if v[0] == "mon"]
+    other_v = [v for v in violations if v[0] != "mon"]
+    if mon_v:
+        for kind, name, path, detail in mon_v[:1]:
+            vlib.violation(prop, path)
+        rc = 1
+    elif other_v:
+        # model and code disagree (or the interpreter crashed) but no monitor is false on a real trace
+        kind, name, path, detail = other_v[0]
+        vlib.violation(prop, path, no_input=True)
+        rc = 1
+    elif problems:
+        path = vlib.replay_path(prop, "tie_or_proof_broken.txt")
+        with open(path, "w") as f:
+            f.write("property %s: the following no longer checks; %d cases were searched without finding a failing input\n" % (prop, n_eval))
+            f.write("\n".join(problems) + "\n")
+        vlib.violation(prop, path, no_input=True)
+        rc = 1
+    # --- evidence
+    ev.violations = len(violations) + (1 if (problems and not violations) else 0)
+    nth = vlib.count_theorems(PROOF_FILES + ["R/%s" % f for f in os.listdir(os.path.join(vlib.COQ, "R")) if f.endswith(".v") and "Proof" in f] + ["Props/%s.v" % prop])
+    ev.cov.update(dict(
+        obligations=max(audit["obligations"], nth), discharged=(max(audit["discharged"], nth) if audit["ok"] else 0),
+        checker_cmd="make -C coq Props/%s.vo (coqc 8.16.1, full .vo) ; Print Assumptions of %s" % (prop, ", ".join(PINS.get(prop, [])) or "-"),
+        axioms=audit["axioms"], closed_under_global_context=audit["closed"],
+        trusted_base=vlib.TRUSTED_BASE_COMMON + [
+            "harness/r interpreter (programs -> public stakker API calls; drop-counting tokens) and exec/r_driver.ml",
+            "timers and the flat queue are abstract in coq/R (lists); their refinement is Layer T / Layer Q"],
+        evaluations=n_eval, traces_validated_against_impl=summ_all["validated"], distinct_nontrivial=len(nontrivial),
+        rule="a case counts as non-trivial for %s if its real trace has %s; distinct = distinct canonical real traces" % (prop, NONTRIVIAL[prop][0]),
+        samples=samples, distribution=dist,
+        skipped_ambiguous_timer_order=summ_all["ambig"], model_out_of_fuel=summ_all["fuel"],
+        known_finding_cases=dict((k, len(v)) for k, v in known_seen.items()),
+        problems=problems, violations_detail=[dict(kind=k, case=n, replay=p, detail=d) for k, n, p, d in violations][:10],
+    ))
+    ev.assumptions = ["timer expiries in generated programs are >= 1 ms away from every run instant and < 30000 s ahead (order of firing by expiry, ties by creation)",
+                      "programs mixing Max/Min timers with other timers in one firing batch or at teardown are skipped (order owned by Layer T)"]
+    ev.write()
+    vlib.log("%s %s: %d cases, %d validated against the implementation, %d non-trivial, %.0fs" % (prop, tier, n_eval, summ_all["validated"], len(nontrivial), time.time() - t0))
+    return rc
+
+
+def replay(prop, path):
+    okm, driver, mlog = build_model()
+    okh, binary, hlog = build_harness()
+    if not (okm and okh):
+        vlib.log("build failed:\n" + (mlog if not okm else hlog)[-2000:])
+        return 3
+    text = open(path).read()
+    cases = parse_cases(text)
+    if not cases:
+        vlib.log(text)
+        return 1
+    res, summ = check_cases(prop, binary, driver, cases, "replay-" + prop)
+    rc = 0
+    for name, _ in cases:
+        r = res[name]
+        vlib.log("case %s: %s %s ; %s_ok(real)=%s %s_ok(model)=%s ; classes=%s" % (
+            name, r["verdict"], r["detail"], prop, r["realmon"].get(prop), prop, (r["model"] or {}).get("mon", {}).get(prop), sorted(classes_of(r))))
+    if summ["monviol"]:
+        vlib.violation(prop, path)
+        rc = 1
+    elif summ["diffs"] or summ["crashes"]:
+        vlib.violation(prop, path, no_input=True)
+        rc = 1
+    for fid, names in summ["known"].items():
+        vlib.known_finding(prop, "class=%s reproduced by %s" % (fid, ",".join(names)))
+    return rc
